@@ -393,6 +393,9 @@ class Model(object):
             y = self.ev(e['b'], ctx, params)
             if len(x) + len(y) > 255:
                 ctx.errs.add(15)
+                # a+b+c is evaluated from the left whatever the shape of this tree: before String too long
+                # is raised, partial results of up to 255 bytes each may have been allocated
+                ctx.inter += 510
                 return b''
             ctx.inter += len(x) + len(y)
             return x + y
